@@ -28,6 +28,24 @@ def harness_bin(module):
     return os.path.join(BUILD, "harness-" + module)
 
 
+IRISMODS = ["coinswap", "farm", "htlc", "mt", "nft", "oracle", "random", "record", "service", "token"]
+COVDIR = None   # set by bin/check: directory collecting Go coverage counters of the harness runs
+
+
+def cover_pkgs(module):
+    """Packages whose statement coverage is reported as evidence: the irismod
+    module(s) a harness binary drives (keeper, types, root)."""
+    mods = {"oracle": ["oracle", "service"], "random": ["random", "service"], "farm": ["farm", "coinswap"],
+            "tokenbig": ["token"], "coinswapbig": ["coinswap"], "params": ["coinswap", "farm", "htlc", "service", "token"],
+            "replica": IRISMODS, "genesis": IRISMODS}.get(module, [module] if module in IRISMODS else [])
+    out = []
+    for m in mods:
+        out += [f"mods.irisnet.org/modules/{m}", f"mods.irisnet.org/modules/{m}/keeper", f"mods.irisnet.org/modules/{m}/types"]
+        if m == "token":
+            out.append("mods.irisnet.org/modules/token/types/v1")
+    return out
+
+
 def build_harness(module):
     """Rebuild the module's harness binary from /repo's current working tree (tag verif)."""
     os.makedirs(BUILD, exist_ok=True)
@@ -45,7 +63,9 @@ def build_harness(module):
         shutil.copy(REPO + "/e2e/go.sum", gosum)
         env = dict(os.environ, **GOENV)
         t0 = time.time()
-        p = subprocess.run(["go", "build", "-tags", "verif", "-o", harness_bin(module), "./cmd/" + module],
+        cov = cover_pkgs(module) if COVDIR else []
+        covargs = ["-cover", "-coverpkg=" + ",".join(["verif/harness/cmd/" + module] + cov)] if cov else []
+        p = subprocess.run(["go", "build", "-tags", "verif"] + covargs + ["-o", harness_bin(module), "./cmd/" + module],
                            cwd=hdir, env=env, capture_output=True, text=True)
         if p.returncode != 0:
             raise Inconclusive("harness build failed:\n" + p.stdout + p.stderr)
@@ -225,7 +245,8 @@ def run_harness(module, mode, out, **kw):
         if v is not None and v != "":
             cmd += ["-" + k, str(v)]
     t0 = time.time()
-    p = subprocess.run(cmd, capture_output=True, text=True, timeout=kw.get("timeout", 3600))
+    env = dict(os.environ, GOCOVERDIR=COVDIR) if COVDIR else None
+    p = subprocess.run(cmd, capture_output=True, text=True, timeout=kw.get("timeout", 3600), env=env)
     if p.returncode != 0:
         raise Inconclusive(f"harness {module} {mode} failed rc={p.returncode}:\n{p.stdout[-2000:]}{p.stderr[-4000:]}")
     return time.time() - t0
@@ -375,6 +396,11 @@ def gen_behaviours(workdir, spec, cfg, out_file, mode="simulate", num=100, depth
 
 def write_evidence(pid, tier, seed, coverage, wall, violations, assumptions):
     os.makedirs(os.path.join(ROOT, "evidence"), exist_ok=True)
+    cc = code_coverage()
+    if cc:
+        coverage = dict(coverage, code_statements=cc,
+                        code_statements_note="Go statement coverage (percent) of the irismod packages reached by the harness "
+                                             "executions of this run; queries, CLI, simulation and migration code is not driven")
     ev = {"property_id": pid, "tier": tier, "seed": seed, "level": "model_checking",
           "coverage": coverage, "assumptions": assumptions, "wall_s": round(wall, 1),
           "violations": violations}
@@ -452,3 +478,20 @@ Inv == StepOK(Steps[pick])
         if len(failing) >= max_fail:
             break
     return len(rows) - len(failing), failing, time.time() - t0
+
+
+def code_coverage():
+    """Statement coverage of the irismod packages reached by this run's harness
+    executions (go build -cover counters), per package; {} when unavailable."""
+    if not COVDIR or not os.path.isdir(COVDIR) or not os.listdir(COVDIR):
+        return {}
+    try:
+        p = subprocess.run(["go", "tool", "covdata", "percent", "-i=" + COVDIR], capture_output=True, text=True,
+                           timeout=300, env=dict(os.environ, **GOENV))
+        out = {}
+        for m in re.finditer(r"^\s*(\S+)\s+coverage: ([\d.]+)% of statements", p.stdout, re.M):
+            if m.group(1).startswith("mods.irisnet.org/modules/"):
+                out[m.group(1).replace("mods.irisnet.org/modules/", "")] = float(m.group(2))
+        return out
+    except Exception:
+        return {}
